@@ -61,10 +61,13 @@ func cleanupReplayBins() {
 
 // buildReplayBin compiles the package's test binary (real code + harness
 // overlay + generated replay test) once per (pkg, tags).
-func buildReplayBin(pkg, tags string) *replayBin {
+func buildReplayBin(pkg, tags string, race bool) *replayBin {
 	replayBinsMu.Lock()
 	defer replayBinsMu.Unlock()
 	key := pkg + "|" + tags
+	if race {
+		key += "|race"
+	}
 	if rb, ok := replayBins[key]; ok {
 		return rb
 	}
@@ -103,7 +106,12 @@ func buildReplayBin(pkg, tags string) *replayBin {
 	ovp := filepath.Join(tmp, "overlay.json")
 	os.WriteFile(ovp, ob, 0o644)
 	bin := filepath.Join(tmp, "replay.test")
-	build := exec.Command("go", "test", "-c", "-o", bin, "-tags="+tags, "-vet=off", "-overlay", ovp, "./"+pkg)
+	bargs := []string{"test", "-c", "-o", bin, "-tags=" + tags, "-vet=off", "-overlay", ovp}
+	if race {
+		// goroutine harnesses: the native run is made under the race detector
+		bargs = append(bargs, "-race")
+	}
+	build := exec.Command("go", append(bargs, "./"+pkg)...)
 	build.Dir = repoRoot
 	build.Env = goEnv()
 	var out bytes.Buffer
@@ -120,7 +128,7 @@ func buildReplayBin(pkg, tags string) *replayBin {
 // replayTape runs the harness natively (real build of /repo + overlay) on the
 // tape and reports whether an assertion failed or a panic escaped.
 func replayTape(l *Loaded, spec RunSpec, t *Tape) ReplayResult {
-	rb := buildReplayBin(t.Pkg, t.Tags)
+	rb := buildReplayBin(t.Pkg, t.Tags, t.Sched)
 	if rb.err != "" {
 		return ReplayResult{Summary: rb.err}
 	}
@@ -134,7 +142,11 @@ func replayTape(l *Loaded, spec RunSpec, t *Tape) ReplayResult {
 	tf.Close()
 	defer os.Remove(tapePath)
 	var out bytes.Buffer
-	cmd := exec.Command(rb.bin, "-test.run", "^TestVerifReplay$", "-test.v", "-test.timeout", "300s")
+	tmo := "300s"
+	if t.Sched {
+		tmo = "60s" // a deadlock shows as a hang
+	}
+	cmd := exec.Command(rb.bin, "-test.run", "^TestVerifReplay$", "-test.v", "-test.timeout", tmo)
 	cmd.Dir = rb.dir
 	if st, err := os.Stat(filepath.Join(repoRoot, t.Pkg)); err == nil && st.IsDir() {
 		cmd.Dir = filepath.Join(repoRoot, t.Pkg)
@@ -155,6 +167,12 @@ func replayTape(l *Loaded, spec RunSpec, t *Tape) ReplayResult {
 	switch {
 	case strings.Contains(o, "VERIF-REPLAY-ERROR"):
 		rr.Summary = "replay error: " + firstLineWith(o, "VERIF-REPLAY-ERROR")
+	case t.Sched && strings.Contains(o, "WARNING: DATA RACE"):
+		rr.Reproduced = true
+		rr.Summary = "race detector: " + firstLineWith(o, "WARNING: DATA RACE")
+	case t.Sched && (strings.Contains(o, "test timed out") || strings.Contains(o, "all goroutines are asleep")):
+		rr.Reproduced = true
+		rr.Summary = "native run does not terminate (deadlock): " + firstLineWith(o, "panic:")
 	case strings.Contains(o, "VERIF-ASSERT-FAILED") || strings.Contains(o, "VERIF-UNCAUGHT-PANIC"):
 		rr.Reproduced = true
 		rr.Summary = firstLineWith(o, "VERIF-ASSERT-FAILED")
